@@ -192,7 +192,10 @@ def addAttH (s : H) (nm : String) : H :=
 theorem add_attacker_fresh (s : H) (nm : String) :
     graph_add_attacker (s.allocA { name := nm }).1 (s.allocA { name := nm }).2 none [] [] =
       if dictIn s._id_to_attacker s.next_attacker_id = true then .error .valueError else .ok (addAttH s nm) := by
-  rw [graph_add_attacker_eq]
+  have hid : ((s.allocA { name := nm }).1.a (s.allocA { name := nm }).2).id = none := by
+    show (if s.afresh = s.afresh then ({ name := nm } : PyAttacker) else s.a s.afresh).id = none
+    rw [if_pos rfl]
+  rw [graph_add_attacker_eq, if_neg (by rw [attIsPart_of_id_none _ _ hid]; decide)]
   rfl
 
 theorem absH_addAttH (s : H) (nm : String) :
